@@ -47,4 +47,8 @@ InvNoDup  == phase = "built" =>
 InvAllIn  == phase = "built" => \A i \in 1..Len(space) : InBox(mins, maxs, space[i])
 InvIndex  == phase = "answered" => IndexOK(mins, maxs, space, q, ans)
 InvInverse == phase = "answered" /\ InBox(mins, maxs, q) => space[ans + 1] = q
+(* the sampled judgement used for boxes too large to list agrees with the full one *)
+InvSampledAgrees ==
+  /\ phase # "new" => SampledSpaceOK(mins, maxs, Len(space), [r \in 1..Len(space) |-> r], space)
+  /\ phase = "answered" => SampledIndexOK(mins, maxs, Len(space), q, ans)
 =============================================================================
